@@ -6,6 +6,7 @@ from xitorch._utils.unique import Uniquifier
 from xitorch._core.editable_module import EditableModule
 from contextlib import contextmanager
 from abc import abstractmethod
+from xitorch._utils import verif_hooks as _vh
 
 __all__ = ["get_pure_function", "make_sibling"]
 
@@ -52,6 +53,8 @@ class PureFunction(object):
             allobjparams = self._uniq.map_unique_objs(objparams)
             self._set_all_obj_params(allobjparams)
             self._cur_objparams = list(objparams)
+        if _vh.ENABLED:
+            _vh.emit("pf.set", view=self, objparams=objparams, identical=identical)
 
     def restore_objparams(self):
         old_objparams, identical = self._restore_stack.pop(-1)
@@ -59,6 +62,8 @@ class PureFunction(object):
             allobjparams = self._uniq.map_unique_objs(old_objparams)
             self._set_all_obj_params(allobjparams)
             self._cur_objparams = old_objparams
+        if _vh.ENABLED:
+            _vh.emit("pf.restore", view=self, identical=identical)
 
     @contextmanager
     def useobjparams(self, objparams: List):
